@@ -736,8 +736,13 @@ func (s *Session) SetUnmarshaller(unmarshaller Unmarshaller) {
 }
 
 func (s *Session) Stop() (err error) {
+	// The event handlers are dropped once the session has really ended, not
+	// before: the logout handler registered below must still be able to fire.
 	defer func() {
-		s.eventHandler.Clean()
+		go func() {
+			<-s.ctx.Done()
+			s.eventHandler.Clean()
+		}()
 	}()
 
 	err = s.Logout()
